@@ -92,7 +92,7 @@ def permutations_of(prog, limit=6, rng=None):
     return out
 
 
-def rename_consistently(prog, suffix="_r9"):
+def rename_consistently(prog, suffix="_r9", refs=False):
     """every declared name, parameter, rec binder and qualifier gets a new spelling (built-ins keep theirs)"""
     declared = set()
 
@@ -109,7 +109,7 @@ def rename_consistently(prog, suffix="_r9"):
 
     def nn(x):
         # @reference names are visible in the document (component names): not renamed
-        return x + suffix if x in declared and not x.startswith("@") else x
+        return x + suffix if x in declared and (refs or not x.startswith("@")) else x
 
     def go(n):
         n = dict(n)
